@@ -169,3 +169,17 @@ var Users = map[string]*User{
 
 // UserIDs in fixed order.
 var UserIDs = []string{"u1", "u2", "u3"}
+
+// OddUserIDs are subjects with characters that escaping / splitting code trips over (e-mail style, reserved URL
+// characters and a space, a colon as in URN- or provider-prefixed subjects). OIDC Core: sub is a case-sensitive ASCII
+// string of at most 255 characters - all of these are legal.
+var OddUserIDs = []string{"dave@example.com", "erin+tag/x y%41", "urn:user:frank"}
+
+// AllUserIDs = UserIDs + OddUserIDs.
+var AllUserIDs = append(append([]string{}, UserIDs...), OddUserIDs...)
+
+func init() {
+	Users["dave@example.com"] = &User{ID: "dave@example.com", Username: "dave", Email: "dave@example.com", Given: "Dave", Family: "D", Phone: "+41000004", Locale: "en", EmailVerified: true}
+	Users["erin+tag/x y%41"] = &User{ID: "erin+tag/x y%41", Username: "erin", Email: "erin@example.com", Given: "Erin", Family: "E", Phone: "+41000005", Locale: "it"}
+	Users["urn:user:frank"] = &User{ID: "urn:user:frank", Username: "frank", Email: "frank@example.com", Given: "Frank", Family: "F", Phone: "+41000006", Locale: "de", PhoneVerified: true}
+}
